@@ -63,6 +63,8 @@ var (
 	// retryHang: how much longer a call that missed its deadline is waited for before it counts as a hang (0: not at all)
 	retryHang time.Duration
 	slowCalls int
+	// hungReaders: confirmed hangs per reader of the exploration
+	hungReaders = map[string]int{}
 )
 
 // panicKind: a short class of the panic message, so that a recorded finding names one mechanism
@@ -89,6 +91,14 @@ func call(name string, f func([]byte) error, in []byte, deadline time.Duration) 
 	type out struct {
 		class int
 		msg   string
+	}
+	// a reader of the exploration that has been seen hanging three times is not run any more in this process:
+	// every hang leaves a goroutine spinning behind, and the violation is already reported with its inputs
+	if !silent && hungReaders[name] >= 3 {
+		s := stats[name]
+		s[ckHang]++
+		stats[name] = s
+		return ckHang
 	}
 	ch := make(chan out, 1)
 	go func() {
@@ -117,6 +127,9 @@ func call(name string, f func([]byte) error, in []byte, deadline time.Duration) 
 			case <-time.After(retryHang):
 			}
 		}
+	}
+	if o.class == ckHang && !silent {
+		hungReaders[name]++
 	}
 	lastPanic = ""
 	if o.class == ckPanic || o.class == ckHang {
